@@ -7,9 +7,10 @@ PENDING_REASON = "check not built yet in this round (planned: see DESIGN.md sect
 
 def main():
     checks, na = [], []
+    claimed = set((lib.VERIF / "harness" / "claimed.txt").read_text().split())
     for pid in ALL:
         p = lib.VERIF / "harness" / "props" / f"{pid.lower()}.py"
-        if not p.exists():
+        if not p.exists() or pid not in claimed:
             na.append({"property_id": pid, "reason": PENDING_REASON})
             continue
         m = importlib.import_module(f"harness.props.{pid.lower()}")
